@@ -1105,6 +1105,16 @@ func (c *FnCtx) verify() (err error) {
 		}
 	}
 	c.resultStack = [][]*types.Var{results}
+	if c.contract != nil {
+		for _, g := range c.contract.Ghosts {
+			gt := c.resolveType(g.Type, &SExpr{Pos: c.contract.Pos})
+			gv := c.freshOfType(st, "g_"+g.Name, gt)
+			if isRefLike(gt) && c.ts.sortOf(gt) == SInt {
+				st.pc = append(st.pc, mkAnd(mkLe(intLit(0), gv), mkLe(gv, st.alloc)))
+			}
+			c.env[g.Name] = gv
+		}
+	}
 	c.pre = st.clone()
 	if c.contract != nil {
 		env := c.entryEnv(st)
